@@ -8,7 +8,8 @@ func init() {
 
 func tabExplain(r *Report) {
 	r.Explain = append(r.Explain,
-		"R-TAB: every package-level table literal is evaluated from the syntax tree (constants only, no init is run) and checked exhaustively, entry by entry: unicode.RangeTable well-formedness as unicode.Is requires it; pairwise disjointness of each lookup family enumerated from the array its lookup iterates; pre-filter tables equal to the union of their family; ScriptRanges sorted/disjoint; compose/decompose mutual inverses modulo 0-valued exclusions; mirroring involution; language table segments strictly sorted, canonical and consistent with the LangXx constants; canonMap idempotent.")
+		"R-TAB: every package-level table literal is evaluated from the syntax tree (constants only, no init is run) and checked exhaustively, entry by entry: unicode.RangeTable well-formedness as unicode.Is requires it; pairwise disjointness of each lookup family enumerated from the array its lookup iterates; pre-filter tables equal to the union of their family; ScriptRanges sorted/disjoint; compose/decompose mutual inverses modulo 0-valued exclusions; mirroring involution; language table segments strictly sorted, canonical and consistent with the LangXx constants, tags unique over both segments; canonMap idempotent.",
+		"R-LANGID: NewLangID returns a result of the search of the first table segment only for an exact match or after the second segment was searched (exact-first), which is what makes unique tags sufficient for every identifier to round-trip.")
 }
 
 func runC20(p *Prog, r *Report) {
@@ -27,6 +28,7 @@ func runC20(p *Prog, r *Report) {
 		hangulSBase: "HangulSBase", hangulSCount: "HangulSCount", floorD1: 1000, floorD2: 1000, floorCompose: 1000})
 	ruleInvolution(p, r, le, "unicodedata", "mirroring", 400)
 	ruleLanguages(p, r, le, langCfg{pkg: "language", table: "languagesInfos", split: "knownLangsCount", canon: "canonMap", idType: "LangID", constPrefix: "Lang", floor: 290})
+	ruleLangID(p, r)
 	ruleBits(p, r, bitsCfg{pkg: "di", typ: "Direction",
 		masks: []string{"progression", "axisVertical", "verticalOrientationSet", "verticalSideways"},
 		setters: map[string][]string{
